@@ -152,7 +152,7 @@ def _extra(ctx, props):
 profiles.profile("cancel", mode="hpc", fault_free=True, no_liveness=True, kind="world", gen=gen_cancel,
                  extra_monitors=_extra, max_jobs=8)
 profiles.PROFILE_PROPS["cancel"] = ["C14"]
-profiles.CHECKS["C14"] = {"profiles": [("cancel", 1.0)], "quick": {"runs": 2400}, "thorough": {"runs": 150000}}
+profiles.CHECKS["C14"] = {"profiles": [("cancel", 1.0)], "quick": {"runs": 4000}, "thorough": {"runs": 150000}}
 profiles.RULES["C14"] = ("clean scenario + jade cancel-jobs (with / without --no-complete) at a drawn moment (after the n-th accepted "
                          "sbatch / job launch / job exit or at a drawn time) followed by drawn try-submit-jobs / show-status commands "
                          "and the documented recovery; non-trivial = the cancel was marked while batches were active or jobs were "
